@@ -471,10 +471,11 @@ def run(ctx) -> dict:
             'that fn:round and the position rounding of substring/subsequence cannot silently '
             'use banker\'s rounding.',
         'not_decided':
-            'Exactness of integer/decimal results, IEEE-754 behaviour, idiv truncation, the sign '
-            'of mod, the division identity and the result-type lattice are statements about '
-            'values; they cannot be refuted or established without evaluating arithmetic '
-            '(another technique family). Reading suggests -6 idiv 2 = -2 and 5 mod -3 = 1 on '
-            'this tree; not claimed either way.',
+            'Decided as structural necessary conditions: rounding mode by sign, sign of mod, the '
+            'inexactness test of the idiv correction, operand-class test of the zero-divisor '
+            'branch, the NaN arm of sign ladders. Not decided: exactness of integer/decimal '
+            'results, IEEE-754 behaviour in general, the division identity, the result-type '
+            'lattice (xs:float is stored with double precision), negative zero results: '
+            'statements about values.',
         'assumptions': ['helpers.round_number is the half-up helper (shape re-checked each run)'],
     }
